@@ -1,5 +1,258 @@
-import Winter.Model.Parse
+-- Property C06: parsing arbitrary bytes as a proof, and verifying any parsed proof, never panics and never
+-- requests memory out of proportion to the input.
+--
+-- What is proved here (for ALL byte strings / ALL parsed proofs, no size bound), about the executable model
+-- Winter/Model/Parse.lean, which mirrors the code after the repairs recorded in known_findings.json:
+--   * `parseProof_safe`      FULL for the parser: `Proof::from_bytes` never panics and requests at most
+--                            3 x |input| + 131168 heap bytes (96 + 65536 on success); `parseProof_invariants`:
+--                            what it returns satisfies the invariants the rest relies on;
+--   * `verifyFront_safe`     for the verifier front end (`verify()` up to and including `VerifierChannel::new`,
+--                            policy MinConjecturedSecurity(0)) on every parsed proof: it never reaches one of the
+--                            modelled panic sites, and the channel construction requests at most
+--                            27 x (bytes of the parsed components) + FRONT_K heap bytes. One outcome is NOT excluded
+--                            because the code has it: `airnew`, the AIR constructor panicking on the untrusted trace
+--                            info / options (`Air::new` cannot return an error; recorded finding
+--                            c06.verify.air-new) - witness `verifyFront_airnew_witness`; the full statement
+--                            `VerifyFrontNeverFails` (no `airnew` either) is therefore false for the pinned tree:
+--                            `verifyFrontNeverFails_false`.
+--   * regression witnesses: the inputs that made the pinned tree panic / abort now end in `err` / `eof`.
+-- Not modelled (covered by the fuzz correspondence of harness/src/bin/c06.rs only): the rest of `verify()` after
+-- the channel has been built, the element conversions of the public-coin seed, and the AIR's own callbacks.
+import WinterProofs.Lemmas.C06Front
+import WinterProofs.Lemmas.C06Data
+
 namespace WinterProofs.C06
-open Model Model.Serde Model.Parse
-theorem placeholder_true : True := trivial
+open Model Model.Serde Model.Parse WinterProofs.C06L
+
+-- ------------------------------------------------------------------------------------------------
+-- the parser
+
+/-- FULL (parser). For every byte string (every element a byte): `Proof::from_bytes` does not panic, and the heap
+    bytes it requests are bounded by `3 * |input| + PARSE_CF` (`PARSE_CF = 96 + 2 * 65536`). -/
+theorem parseProof_safe (bs : Bytes) (h : BytesOk bs) :
+    (parseProof bs).1 ≠ .panic ∧ (parseProof bs).2 ≤ 3 * bs.length + PARSE_CF := by
+  have hs := spec_pProof (c := 3) (Nat.le_refl 3) bs 0 h
+  unfold parseProof
+  generalize pProof bs 0 = r at hs ⊢
+  rcases r with ⟨⟨x, rest⟩ | _ | _ | _, a'⟩ <;> simp only [Post] at hs
+  · obtain ⟨_, _, _, al⟩ := hs
+    refine ⟨by simp, ?_⟩
+    show a' ≤ _
+    unfold PARSE_CF; omega
+  · exact ⟨by simp, by show a' ≤ _; omega⟩
+  · exact ⟨by simp, by show a' ≤ _; omega⟩
+
+/-- on success the bound is `3 * |input| + PARSE_C0` (`PARSE_C0 = 96 + 65536`) and the value satisfies the
+    invariants `ProofOk` (well-formed trace info and options, the size limits of `Context::new`, one query set per
+    trace segment, partition exponent < 64, all blocks made of bytes) -/
+theorem parseProof_invariants (bs : Bytes) (h : BytesOk bs) (p : Proof) (hp : (parseProof bs).1 = .ok p) :
+    ProofOk p ∧ (parseProof bs).2 ≤ 3 * bs.length + PARSE_C0 := by
+  have hs := spec_pProof (c := 3) (Nat.le_refl 3) bs 0 h
+  unfold parseProof at hp ⊢
+  generalize pProof bs 0 = r at hs hp ⊢
+  rcases r with ⟨⟨x, rest⟩ | _ | _ | _, a'⟩ <;> simp only [Post] at hs <;> simp at hp
+  obtain ⟨q, _, _, al⟩ := hs
+  subst hp
+  exact ⟨q, by show a' ≤ _; omega⟩
+
+-- the hypotheses are satisfiable: a byte string, and a (truncated) proof
+example : BytesOk [1, 0, 0, 3, 0, 0, 8, 1, 0, 0, 0, 255, 255, 255, 255, 2, 4, 0, 1, 2, 1] := by
+  intro b hb; simp at hb; omega
+
+-- ------------------------------------------------------------------------------------------------
+-- the verifier front end
+
+/-- the security estimate computed before anything else does not hit an arithmetic panic on a parsed context
+    (this is what the size limits of `Context::read_from`, repair 0d65c7b, are for) -/
+theorem conjecturedSecurity_isSome (c : Context) (h : CtxOk c) (bits : Nat) (hb : 32 ≤ bits) :
+    (conjecturedSecurity c.options bits c.traceInfo.length).isSome = true := by
+  obtain ⟨hti, hopt, _, hlde, _, _⟩ := h
+  obtain ⟨_, _, _, hn8⟩ := ti_facts _ hti
+  obtain ⟨_, hb2, _, _, _, hext, hq0, _⟩ := opt_facts _ hopt
+  unfold conjecturedSecurity
+  simp only []
+  have hl0 : c.traceInfo.length * c.options.blowup ≠ 0 :=
+    Nat.ne_of_gt (Nat.mul_pos (by omega) (by omega))
+  have hlog : (c.traceInfo.length * c.options.blowup).log2 < 32 :=
+    (Nat.log2_lt hl0).mpr (by
+      have : (2 : Nat) ^ 32 = 4294967296 := by decide
+      omega)
+  have hbl : 1 ≤ c.options.blowup.log2 := (Nat.le_log2 (by omega)).mpr (by simpa using hb2)
+  have hfs : 32 ≤ bits * c.options.fieldExt := by
+    calc 32 ≤ bits := hb
+      _ = bits * 1 := by omega
+      _ ≤ bits * c.options.fieldExt := Nat.mul_le_mul_left _ (by omega)
+  have hq : 1 ≤ c.options.blowup.log2 * c.options.numQueries := Nat.mul_pos hbl hq0
+  rw [if_neg (by omega), if_neg (by omega)]
+  split
+  · rw [if_neg (by omega)]; rfl
+  · rw [if_neg (by omega)]; rfl
+
+/-- the number of composition columns the AIR constructor returns is never zero -/
+theorem airNew_pos (A : Air) (ti : TraceInfo) (o : ProofOptions) (n : Nat) (h : airNew A ti o = some n) :
+    n ≠ 0 := by
+  unfold airNew at h
+  simp only [] at h
+  repeat' (split at h <;> try (cases h; done))
+  all_goals (
+    simp only [Option.some.injEq] at h
+    subst h
+    unfold Protocol.compositionColumns
+    omega)
+
+/-- the statement one would like: the front end always ends in an error value or with a channel -/
+def VerifyFrontNeverFails (A : Air) : Prop :=
+  ∀ p, ProofOk p → (verifyFront A p).1 ≠ .panic ∧ (verifyFront A p).1 ≠ .airnew
+
+/-- PARTIAL (the part that holds for the code as it is). For an instantiation with the sizes `AirOk` and a field
+    of at least 32 bits, and an AIR whose constructor, when it succeeds, asks for at most 255 composition columns:
+    on every parsed proof the front end of `verify()` reaches none of the modelled panic sites, and the channel
+    construction requests at most `27 * proofSize p + FRONT_K A` heap bytes. What is missing from the full
+    statement is exactly the outcome `airnew` (see `verifyFront_airnew_witness`). -/
+theorem verifyFront_safe_partial (A : Air) (hA : AirOk A) (hbits : 32 ≤ A.fieldBits)
+    (hcols : ∀ ti o n, airNew A ti o = some n → n ≤ 255) (p : Proof) (hp : ProofOk p) :
+    (verifyFront A p).1 ≠ .panic ∧ (verifyFront A p).2 ≤ CL * proofSize p + FRONT_K A := by
+  unfold verifyFront
+  simp only []
+  split
+  · exact ⟨by simp, Nat.zero_le _⟩
+  · have hsec := conjecturedSecurity_isSome p.context hp.1 A.fieldBits hbits
+    split
+    · rename_i hnone; rw [hnone] at hsec; simp at hsec
+    · split
+      · exact ⟨by simp, Nat.zero_le _⟩
+      · split
+        · exact ⟨by simp, Nat.zero_le _⟩
+        · rename_i ncols hair
+          split
+          · exact ⟨by simp, Nat.zero_le _⟩
+          · have hc := aspec_channelNew A hA p hp ncols (airNew_pos A _ _ ncols hair) (hcols _ _ ncols hair) 0
+            generalize channelNew A p ncols 0 = r at hc ⊢
+            rcases r with ⟨x | _ | _ | _, a'⟩ <;> simp only [APost] at hc
+            · exact ⟨by simp, by show a' ≤ _; omega⟩
+            · exact ⟨by simp, by show a' ≤ _; omega⟩
+            · exact ⟨by simp, by show a' ≤ _; omega⟩
+
+-- ------------------------------------------------------------------------------------------------
+-- concrete instances: the hypotheses are satisfiable, the recorded finding is real, the repaired defects stay
+-- repaired (the witness inputs are those of corpus/C06/defects.case, on the valid proofs of Lemmas/C06Data.lean)
+
+/-- x -> x^2 + 5 (one constraint of degree 2, 2 exemptions) over the 64-bit field with Rp64_256 -/
+def airSq : Air where
+  F := F64.impl
+  cubic := true
+  digestBytes := 32
+  digestSize := 32
+  exemptions := 2
+  mainDegs := [⟨2, []⟩]
+  auxDegs := []
+  nMainAssert := 1
+  nAuxAssert := 0
+  descAuxWidth := 0
+  lagrange := false
+
+/-- x -> x^5 + 5 (one constraint of degree 5) over the 64-bit field with Blake3_256 -/
+def airPow5 : Air := { airSq with exemptions := 1, mainDegs := [⟨5, []⟩] }
+
+/-- overwrite `len` bytes at `off` by `new` -/
+def splice (bs : Bytes) (off len : Nat) (new : Bytes) : Bytes := bs.take off ++ new ++ bs.drop (off + len)
+
+/-- outcome class of `Proof::from_bytes` followed, when it parses, by the front end of `verify()` -/
+def outcome (A : Air) (bs : Bytes) : String :=
+  match (parseProof bs).1 with
+  | .ok p =>
+    match (verifyFront A p).1 with
+    | .pass => "ok pass" | .err => "ok err" | .field => "ok field" | .opts => "ok opts" | .ext => "ok ext"
+    | .airnew => "ok airnew" | .panic => "ok panic"
+  | .err => "err"
+  | .eof => "eof"
+  | .panic => "panic"
+
+example : AirOk airSq := ⟨by decide, by decide, by decide, by decide⟩
+example : 32 ≤ airSq.fieldBits := by decide +kernel
+example : BytesOk sq8rp := BytesOk.of_all (by decide +kernel)
+-- whatever the trace info and options of the proof, the constructor of this AIR asks for at most 2 columns
+example : ∀ ti o n, airNew airSq ti o = some n → n ≤ 255 := by
+  intro ti o n h
+  unfold airNew at h
+  simp only [] at h
+  repeat' (split at h <;> try (cases h; done))
+  all_goals (
+    simp only [Option.some.injEq] at h
+    subst h
+    simp [airSq, Protocol.compositionColumns, Protocol.highestDegree, Protocol.Degree.evalDegree]
+    have : (2 * (ti.length - 1) - (ti.length - 2)) / ti.length ≤ 1 :=
+      Nat.div_le_of_le_mul (by omega)
+    omega)
+
+/-- the valid proofs parse and pass the front end -/
+theorem valid_sq8rp : outcome airSq sq8rp = "ok pass" := by decide +kernel
+theorem valid_pow5 : outcome airPow5 pow5 = "ok pass" := by decide +kernel
+
+-- the recorded finding c06.verify.air-new: lowering the blowup byte of a valid proof (8 -> 2, still an acceptable
+-- option set for the policy MinConjecturedSecurity(0)) makes the AIR constructor panic inside `verify()`
+theorem verifyFront_airnew_witness : outcome airPow5 (pow5.set 16 2) = "ok airnew" := by decide +kernel
+
+/-- the front-end outcome of the proof parsed from `bs` -/
+def frontOf (A : Air) (bs : Bytes) : Option Front :=
+  match (parseProof bs).1 with
+  | .ok p => some (verifyFront A p).1
+  | _ => none
+
+theorem frontOf_airnew : frontOf airPow5 (pow5.set 16 2) = some .airnew := by decide +kernel
+
+/-- the full statement is false for the code as it is -/
+theorem verifyFrontNeverFails_false : ¬ VerifyFrontNeverFails airPow5 := by
+  intro h
+  have hb : BytesOk (pow5.set 16 2) := BytesOk.of_all (by decide +kernel)
+  have hw := frontOf_airnew
+  unfold frontOf at hw
+  split at hw
+  · rename_i p hp
+    have hok := (parseProof_invariants _ hb p hp).1
+    exact (h p hok).2 (Option.some.inj hw)
+  · cases hw
+
+-- repaired defects: the witnesses end in an error value
+/-- 01a5214 `ProofOptions::read_from`: options 00 03 00 01 02 00, zero queries, blowup 3, grinding 33, folding 0 / 1 /
+    32, remainder degree 2 -/
+theorem fixed_options :
+    outcome airSq [1, 0, 0, 3, 0, 0, 8, 1, 0, 0, 0, 255, 255, 255, 255, 0, 3, 0, 1, 2, 0] = "err" ∧
+    outcome airSq (sq8rp.set 15 0) = "err" ∧ outcome airSq (sq8rp.set 16 3) = "err" ∧
+    outcome airSq (sq8rp.set 17 33) = "err" ∧ outcome airSq (sq8rp.set 19 0) = "err" ∧
+    outcome airSq (sq8rp.set 19 1) = "err" ∧ outcome airSq (sq8rp.set 19 32) = "err" ∧
+    outcome airSq (sq8rp.set 20 2) = "err" := by decide +kernel
+
+/-- 0353f38 `TraceInfo::read_from` (2^64 and more rows), 0d65c7b `Context::read_from` (2^32 .. 2^63 rows, and an
+    LDE domain of 2^32 points) -/
+theorem fixed_trace_length :
+    outcome airSq [1, 0, 0, 64] = "err" ∧ outcome airSq (sq8rp.set 3 64) = "err" ∧
+    outcome airSq (sq8rp.set 3 255) = "err" ∧ outcome airSq (sq8rp.set 3 62) = "err" ∧
+    outcome airSq (sq8rp.set 3 57) = "err" ∧ outcome airSq (sq8rp.set 3 32) = "err" ∧
+    outcome airSq (sq8rp.set 3 30) = "err" := by decide +kernel
+
+/-- 0bf474e `read_many`: GKR byte vector of claimed length 2^64 - 1 / 2^40 / 2^63 - 1: end of input, and the heap
+    bytes requested stay within the bound of `parseProof_safe` (65536 of them are the bounded pre-allocation) -/
+theorem fixed_read_many :
+    outcome airSq (splice sq8rp 877 1 [1, 0, 255, 255, 255, 255, 255, 255, 255, 255]) = "eof" ∧
+    outcome airSq (splice sq8rp 877 1 [1, 0, 0, 0, 0, 0, 0, 1, 0, 0]) = "eof" ∧
+    outcome airSq (splice sq8rp 877 1 [1, 0, 255, 255, 255, 255, 255, 255, 255, 127]) = "eof" ∧
+    (parseProof (splice sq8rp 877 1 [1, 0, 255, 255, 255, 255, 255, 255, 255, 255])).2 ≤ 3 * 887 + PARSE_CF := by
+  decide +kernel
+
+/-- 80aebf5 `FriProof::read_from`: partition exponent 64 / 255 is an error, 63 is still read -/
+theorem fixed_partitions :
+    outcome airSq (sq8rp.set 868 64) = "err" ∧ outcome airSq (sq8rp.set 868 255) = "err" ∧
+    outcome airSq (sq8rp.set 868 63) = "ok pass" := by decide +kernel
+
+/-- 18a2667 zero unique queries; 73d3514 the only FRI layer removed; 660ad26 a Lagrange kernel frame for a trace
+    without auxiliary segment; eda2442 out-of-domain frames of 1 and of 4 rows -/
+theorem fixed_channel :
+    outcome airSq (sq8rp.set 21 0) = "ok err" ∧
+    outcome airSq (splice (sq8rp.set 646 0) 647 203 []) = "ok err" ∧
+    outcome airSq (splice sq8rp 625 3 [9, 0, 1, 134, 67, 100, 31, 143, 22, 220, 70]) = "ok err" ∧
+    outcome airSq (splice sq8rp 606 19 [1, 0, 0]) = "ok err" ∧
+    outcome airSq (splice sq8rp 606 19 [33, 0, 4, 134, 67, 100, 31, 143, 22, 220, 70, 134, 67, 100, 31, 143, 22, 220, 70,
+      134, 67, 100, 31, 143, 22, 220, 70, 134, 67, 100, 31, 143, 22, 220, 70]) = "ok err" := by decide +kernel
+
 end WinterProofs.C06
